@@ -5,9 +5,11 @@ import (
 	"encoding/json"
 	"flag"
 	"fmt"
+	"maps"
 	"os"
 	"os/exec"
 	"path/filepath"
+	"slices"
 	"strings"
 	"unicode"
 )
@@ -561,7 +563,9 @@ func convertArguments(funcType RBSFuncType, aliases typeAliasMap, className stri
 		}
 	}
 
-	for name, kw := range funcType.RequiredKeywords {
+	// map iteration order is random: emit keywords in a fixed (sorted) order
+	for _, name := range slices.Sorted(maps.Keys(funcType.RequiredKeywords)) {
+		kw := funcType.RequiredKeywords[name]
 		if kw.Type != nil {
 			types := convertType(*kw.Type, aliases, className)
 			args = append(args, TiArgument{
@@ -571,7 +575,8 @@ func convertArguments(funcType RBSFuncType, aliases typeAliasMap, className stri
 		}
 	}
 
-	for name, kw := range funcType.OptionalKeywords {
+	for _, name := range slices.Sorted(maps.Keys(funcType.OptionalKeywords)) {
+		kw := funcType.OptionalKeywords[name]
 		if kw.Type != nil {
 			types := convertType(*kw.Type, aliases, className)
 			args = append(args, TiArgument{
